@@ -89,6 +89,7 @@ type HarnessRun struct {
 	assumedMsgs  map[string]int
 	passSamples  []sample
 	pathCapHit   bool
+	violPaths    int
 	wall         time.Duration
 }
 
@@ -426,6 +427,15 @@ func (r *Run) runPath(w *Worker, it workItem) (more [][]uint64) {
 			f.Models = append(f.Models, model)
 		}
 	}
+	violated := false
+	for _, e := range m.events {
+		if e.kind == "assert" {
+			violated = true
+		}
+	}
+	if violated {
+		hr.violPaths++
+	}
 	for _, e := range m.events {
 		switch e.kind {
 		case "assert":
@@ -467,6 +477,14 @@ func (r *Run) runPath(w *Worker, it workItem) (more [][]uint64) {
 	default:
 		hr.unsupported++
 		hr.unsupMsgs[kind+": "+msg]++
+	}
+	if hr.violPaths > 400 {
+		// the verdict of this harness is settled (violations with models are recorded); the rest of its path
+		// tree is not explored, which keeps a badly broken tree from costing the whole time budget
+		if len(m.newWork) > 0 {
+			hr.budgetMsgs["exploration stopped after 400 violating paths"] += len(m.newWork)
+		}
+		return nil
 	}
 	return m.newWork
 }
